@@ -129,7 +129,19 @@ Definition val (r : row) (f : Z) : fval := nth (Z.to_nat f) (vals r) FNaN.
 Definition pin (r : row) (v : Z) : bool := nth (Z.to_nat v) (pins r) false.
 
 (* ---- settings ------------------------------------------------------------ *)
-Definition ranges := list (Z * (fval * fval)).    (* "<f> min", "<f> max" *)
+(* the keys "<f> min" and "<f> max" of the filtering section: per feature the
+   value of either key, [None] when the key is absent *)
+Definition ranges := list (Z * (option fval * option fval)).
+
+Definition rget (rg : ranges) (f : Z) : option fval * option fval :=
+  match lookup f rg with Some p => p | None => (None, None) end.
+
+(* exactly one of the two keys is present *)
+Definition half_set (rg : ranges) (f : Z) : bool :=
+  match rget rg f with
+  | (Some _, None) | (None, Some _) => true
+  | _ => false
+  end.
 
 Record config := {
   rng : ranges;
@@ -159,11 +171,14 @@ Record fstate := {
   old_rng : ranges                             (* _old_config (range keys) *)
 }.
 
-Record world := { cfg : config; reg : registry; flt : fstate }.
+(* [err]: the last operation raised ValueError *)
+Record world := { cfg : config; reg : registry; flt : fstate; err : bool }.
 
 Inductive op :=
-| SetRange (f : Z) (lo hi : fval)    (* cfg["f min"] = lo; cfg["f max"] = hi *)
-| DelRange (f : Z)                   (* cfg.pop("f min"); cfg.pop("f max") *)
+| SetMin (f : Z) (v : fval)          (* cfg["f min"] = v *)
+| SetMax (f : Z) (v : fval)          (* cfg["f max"] = v *)
+| DelMin (f : Z)                     (* cfg.pop("f min", None) *)
+| DelMax (f : Z)                     (* cfg.pop("f max", None) *)
 | AddPoly (id : Z)                   (* ds.polygon_filter_add(id) *)
 | RmPoly (id : Z)                    (* ds.polygon_filter_rm(id) *)
 | ModPoly (id v : Z)                 (* pf.points/axes = vertex set number v *)
@@ -194,26 +209,35 @@ Section Filter.
        manual := ones; old_rng := [] |}.
 
   Definition init_world (reg0 : registry) : world :=
-    {| cfg := default_config; reg := reg0; flt := reset_fstate |}.
+    {| cfg := default_config; reg := reg0; flt := reset_fstate; err := false |}.
 
   (* --- Filter.update, part 0: which features must be refiltered ---------- *)
-  (* for skey in cfg_cur.keys(): if cfg_cur[skey] != cfg_old.get(skey) *)
-  Definition changed_keys (cur old : ranges) : list Z :=
-    flat_map (fun e : Z * (fval * fval) =>
-                let '(f, (lo, hi)) := e in
-                match lookup f old with
-                | None => [f]
-                | Some (lo', hi') =>
-                    if fne lo lo' || fne hi hi' then [f] else []
-                end) cur.
+  (* for skey in cfg_cur.keys(): if cfg_cur[skey] != cfg_old.get(skey, None) *)
+  Definition key_changed (c o : option fval) : bool :=
+    match c, o with
+    | None, _ => false
+    | Some _, None => true
+    | Some a, Some b => fne a b
+    end.
 
-  (* repaired code only: for skey in cfg_old.keys(): if skey not in cfg_cur *)
+  Definition changed_keys (cur old : ranges) : list Z :=
+    flat_map (fun e : Z * (option fval * option fval) =>
+                let '(f, (mn, mx)) := e in
+                if key_changed mn (fst (rget old f)) || key_changed mx (snd (rget old f))
+                then [f] else []) cur.
+
+  (* (since 1ad19c0) for skey in cfg_old.keys(): if skey not in cfg_cur *)
+  Definition key_removed (o c : option fval) : bool :=
+    match o, c with
+    | Some _, None => true
+    | _, _ => false
+    end.
+
   Definition removed_keys (cur old : ranges) : list Z :=
-    flat_map (fun e : Z * (fval * fval) =>
-                match lookup (fst e) cur with
-                | None => [fst e]
-                | Some _ => []
-                end) old.
+    flat_map (fun e : Z * (option fval * option fval) =>
+                let '(f, (mn, mx)) := e in
+                if key_removed mn (fst (rget cur f)) || key_removed mx (snd (rget cur f))
+                then [f] else []) old.
 
   Definition feat2filter (cur old : ranges) (force : list Z) : list Z :=
     nodup Z.eq_dec
@@ -231,11 +255,11 @@ Section Filter.
   Definition box_one (cur : ranges) (bf : list (Z * list bool)) (f : Z)
     : list (Z * list bool) :=
     if memZ f feats then
-      match lookup f cur with
-      | Some (lo, hi) =>
+      match rget cur f with
+      | (Some lo, Some hi) =>
           if fne lo hi then dict_set f (box_mask lo hi (col f)) bf
           else dict_set f ones bf
-      | None => dict_set f ones bf
+      | _ => dict_set f ones bf
       end
     else bf.                 (* warning only *)
 
@@ -282,8 +306,19 @@ Section Filter.
     let s := flt w in
     let pf0 := prune_polys (polys c) (poly_filters s) in
     let inval := invalid_arr (rm_invalid c) in
-    let bf := fold_left (box_one (rng c)) (feat2filter (rng c) (old_rng s) force)
-                        (box_filters s) in
+    let f2f := feat2filter (rng c) (old_rng s) force in
+    if existsb (half_set (rng c)) f2f then
+      (* raise ValueError("Box filter: Please make sure that both ... are
+         set!") before any box filter is modified; the polygon cache has been
+         pruned and the invalid array recomputed by then *)
+      {| cfg := c; reg := reg w;
+         flt := {| box_filters := box_filters s; poly_filters := pf0;
+                   a_all := a_all s; a_box := a_box s; a_polygon := a_polygon s;
+                   a_invalid := inval; manual := manual s;
+                   old_rng := old_rng s |};
+         err := true |}
+    else
+    let bf := fold_left (box_one (rng c)) f2f (box_filters s) in
     let box := fold_left band (map snd bf) ones in
     let pf := fold_left (poly_one (reg w)) (polys c) pf0 in
     let polygon := fold_left band (map (fun e => snd (snd e)) pf) ones in
@@ -296,20 +331,24 @@ Section Filter.
        flt := {| box_filters := bf; poly_filters := pf;
                  a_all := all; a_box := box; a_polygon := polygon;
                  a_invalid := inval; manual := manual s;
-                 old_rng := rng c |} |}.
+                 old_rng := rng c |};
+       err := false |}.
 
   Definition set_cfg (w : world) (c : config) : world :=
-    {| cfg := c; reg := reg w; flt := flt w |}.
+    {| cfg := c; reg := reg w; flt := flt w; err := false |}.
+
+  Definition set_rng (w : world) (rg : ranges) : world :=
+    let c := cfg w in
+    set_cfg w {| rng := rg; rm_invalid := rm_invalid c; enable := enable c;
+                 limit := limit c; polys := polys c |}.
 
   Definition step (w : world) (o : op) : world :=
     let c := cfg w in
     match o with
-    | SetRange f lo hi =>
-        set_cfg w {| rng := dict_set f (lo, hi) (rng c); rm_invalid := rm_invalid c;
-                     enable := enable c; limit := limit c; polys := polys c |}
-    | DelRange f =>
-        set_cfg w {| rng := dict_del f (rng c); rm_invalid := rm_invalid c;
-                     enable := enable c; limit := limit c; polys := polys c |}
+    | SetMin f v => set_rng w (dict_set f (Some v, snd (rget (rng c) f)) (rng c))
+    | SetMax f v => set_rng w (dict_set f (fst (rget (rng c) f), Some v) (rng c))
+    | DelMin f => set_rng w (dict_set f (None, snd (rget (rng c) f)) (rng c))
+    | DelMax f => set_rng w (dict_set f (fst (rget (rng c) f), None) (rng c))
     | AddPoly id =>
         set_cfg w {| rng := rng c; rm_invalid := rm_invalid c; enable := enable c;
                      limit := limit c; polys := polys c ++ [id] |}
@@ -318,12 +357,12 @@ Section Filter.
                      limit := limit c; polys := remove_first id (polys c) |}
     | ModPoly id v =>
         {| cfg := c; reg := dict_set id (v, snd (reg_get (reg w) id)) (reg w);
-           flt := flt w |}
+           flt := flt w; err := false |}
     | InvertPoly id =>
         {| cfg := c;
            reg := dict_set id (fst (reg_get (reg w) id),
                                negb (snd (reg_get (reg w) id))) (reg w);
-           flt := flt w |}
+           flt := flt w; err := false |}
     | SetInvalid b =>
         set_cfg w {| rng := rng c; rm_invalid := b; enable := enable c;
                      limit := limit c; polys := polys c |}
@@ -341,13 +380,14 @@ Section Filter.
                      a_invalid := a_invalid s;
                      manual := if (0 <=? i) then set_nth (Z.to_nat i) b (manual s)
                                else manual s;
-                     old_rng := old_rng s |} |}
+                     old_rng := old_rng s |};
+           err := false |}
     | Reset =>
         (* Filter.reset(); config._init_default_filter_values(): the five
            default keys are overwritten, the range keys stay *)
         {| cfg := {| rng := rng c; rm_invalid := false; enable := true;
                      limit := 0; polys := [] |};
-           reg := reg w; flt := reset_fstate |}
+           reg := reg w; flt := reset_fstate; err := false |}
     | Apply force => update w force
     end.
 
@@ -359,9 +399,9 @@ Section Filter.
     fle a x && fle x b.
 
   Definition spec_feat (rg : ranges) (f : Z) (r : row) : bool :=
-    match lookup f rg with
-    | Some (lo, hi) => if fne lo hi then in_range lo hi (val r f) else true
-    | None => true
+    match rget rg f with
+    | (Some lo, Some hi) => if fne lo hi then in_range lo hi (val r f) else true
+    | _ => true
     end.
 
   Definition spec_box_row (rg : ranges) (r : row) : bool :=
@@ -411,23 +451,28 @@ Definition dec_fval (p : Z * Z) : fval :=
 Definition dec_row (p : list (Z * Z) * list bool) : row :=
   {| vals := map dec_fval (fst p); pins := snd p |}.
 
-(* op encoding: (tag, [ints], [fvals]) *)
-Definition dec_op (t : Z * list Z * list (Z * Z)) : op :=
+(* op encoding: (tag, [ints], [fvals]); tags 0/1 set/delete both keys *)
+Definition dec_op (t : Z * list Z * list (Z * Z)) : list op :=
   let '(tag, a, fv) := t in
   let a0 := nth 0 a 0 in
   let a1 := nth 1 a 0 in
-  if tag =? 0 then SetRange a0 (dec_fval (nth 0 fv (1, 0))) (dec_fval (nth 1 fv (1, 0)))
-  else if tag =? 1 then DelRange a0
-  else if tag =? 2 then AddPoly a0
-  else if tag =? 3 then RmPoly a0
-  else if tag =? 4 then ModPoly a0 a1
-  else if tag =? 5 then InvertPoly a0
-  else if tag =? 6 then SetInvalid (negb (a0 =? 0))
-  else if tag =? 7 then SetEnable (negb (a0 =? 0))
-  else if tag =? 8 then SetLimit a0
-  else if tag =? 9 then EditManual a0 (negb (a1 =? 0))
-  else if tag =? 10 then Reset
-  else Apply a.
+  let v0 := dec_fval (nth 0 fv (1, 0)) in
+  if tag =? 0 then [SetMin a0 v0; SetMax a0 (dec_fval (nth 1 fv (1, 0)))]
+  else if tag =? 1 then [DelMin a0; DelMax a0]
+  else if tag =? 2 then [AddPoly a0]
+  else if tag =? 3 then [RmPoly a0]
+  else if tag =? 4 then [ModPoly a0 a1]
+  else if tag =? 5 then [InvertPoly a0]
+  else if tag =? 6 then [SetInvalid (negb (a0 =? 0))]
+  else if tag =? 7 then [SetEnable (negb (a0 =? 0))]
+  else if tag =? 8 then [SetLimit a0]
+  else if tag =? 9 then [EditManual a0 (negb (a1 =? 0))]
+  else if tag =? 10 then [Reset]
+  else if tag =? 11 then [Apply a]
+  else if tag =? 12 then [SetMin a0 v0]
+  else if tag =? 13 then [SetMax a0 v0]
+  else if tag =? 14 then [DelMin a0]
+  else [DelMax a0].
 
 Definition mk_hash (v : Z) (b : bool) : Z := 2 * v + (if b then 1 else 0).
 
@@ -439,7 +484,8 @@ Definition mk_choice (tab : list (Z * Z * list Z)) (m k : Z) : list Z :=
 
 Definition enc_bools (l : list bool) : list Z := map (fun b : bool => if b then 1 else 0) l.
 
-(* observation after every Apply: all ++ box ++ polygon ++ invalid *)
+(* observation after every Apply: all ++ box ++ polygon ++ invalid, or [9]
+   when it raised *)
 Fixpoint run_obs (hashf : Z -> bool -> Z) (choice : Z -> Z -> list Z)
          (rows : list row) (feats : list Z) (sr : bool)
          (w : world) (ops : list op) : list Z :=
@@ -449,6 +495,7 @@ Fixpoint run_obs (hashf : Z -> bool -> Z) (choice : Z -> Z -> list Z)
       let w' := step hashf choice rows feats sr w o in
       (match o with
        | Apply _ =>
+           if err w' then [9] else
            enc_bools (a_all (flt w')) ++ enc_bools (a_box (flt w'))
            ++ enc_bools (a_polygon (flt w')) ++ enc_bools (a_invalid (flt w'))
        | _ => []
@@ -463,4 +510,4 @@ Definition run_flat
   let rows := map dec_row rws in
   let reg0 := map (fun e : Z * (Z * Z) => (fst e, (fst (snd e), negb (snd (snd e) =? 0)))) rg in
   run_obs mk_hash (mk_choice tab) rows fts (negb (sr =? 0))
-          (init_world rows reg0) (map dec_op tops).
+          (init_world rows reg0) (flat_map dec_op tops).
